@@ -1162,7 +1162,9 @@ where
             Err(_) => continue,
         };
         let deg = range(&mut rng, 1, sizes.supported);
-        let poly = S::rand_poly(&mut rng, &sizes, deg);
+        // every third case: the zero polynomial or a constant — hiding must not depend on the polynomial
+        let special = if i % 3 == 2 { S::special_poly(&mut rng, &sizes, (i / 3) % 2).map(|x| x.0) } else { None };
+        let poly = match special { Some(p) => p, None => S::rand_poly(&mut rng, &sizes, deg) };
         let bound = if S::BOUNDS && coin(&mut rng) { Some(range(&mut rng, poly.degree().max(1), sizes.supported)) } else { None };
         let hi = bound.unwrap_or(sizes.supported).min(sizes.supported).max(1);
         let h = range(&mut rng, 1, hi);
